@@ -399,6 +399,23 @@ def resimulation_rule(ctx, run, rule, only=None):
                             bad.append(f"{lab} after {stage} still depends on the simulation with n_paths={stale[0]}")
                         elif own not in names:
                             bad.append(f"{lab} after {stage} does not depend on that simulation")
+            # order independence: each reader evaluated alone on a fresh derivative (same first simulation) returns the same term as in the
+            # sequence above, where other readers ran before it (a cache shared by two readers and keyed too coarsely serves one the other's value)
+            if res and not bad:
+                exprs = [e_.strip() for e_ in reads.strip()[1:-1].rstrip(",").split("), ")]
+                exprs = [e_ if e_.endswith(")") else e_ + ")" for e_ in exprs if e_]
+                for lab, ex_ in zip(labels, exprs):
+                    src1 = f"def history(cls, stock, N, M, P, i):\n    u = stock()\n    d = cls(u)\n    d.simulate(n_paths=N)\n    return {ex_}\n"
+                    fi1 = FuncInfo("synthetic.single_read", D + "base", ast.parse(src1).body[0])
+                    try:
+                        r1 = [r for r in interp.explore(fi1, [ClassRef(q), ClassRef(stock)], args, max_paths=100) if not r["raises"]]
+                    except Unsupported as ex:
+                        raise AnalysisError(f"single read {lab} on {short}: {ex}")
+                    alone = {repr(r["value"]) for r in r1}  # printed form: the terms mention the instrument objects, which are fresh per exploration
+                    k_ = labels.index(lab)
+                    in_seq = {repr(r["value"][0][k_]) for r in res}
+                    if alone and in_seq and not (in_seq <= alone):
+                        bad.append(f"{lab} evaluated after the other readers differs from {lab} evaluated alone on the same paths")
             bad = sorted(set(bad))
             n_obl += 1
             run.oblige(rule, f"{short}: history '{name}'", not bad, "; ".join(bad) or "every read follows the latest simulation")
